@@ -70,10 +70,15 @@ func init() {
 		Assumptions: []string{"reference = verif/sim/msearch on verif/sim/rules; repo's own Minimax is not the oracle", "value at a root that is already drawn is not judged (sentence leaves it open); over-budget reference searches are counted as inconclusive", "sampling: a clean batch is evidence, not proof"},
 		Run:         sb.SearchSessionC03})
 	register(&Spec{Prop: "C11", QuickRuns: 6000, Level: "exploration",
-		Rule: "one run = a game history, one real table of tape-drawn size (2..65536 slots, optionally behind the min-depth-1 write filter) wrapped in a recording table, then 1..4 rounds of iterative deepening 1..d with the game advancing 1..2 plies between rounds and an occasional halted search in between; judged per search: root score vs the same search without table, PV first move's no-table value, every (sampled) exact store vs the no-table value of the forked position at that depth, every hit vs the last store let through. Non-trivial = at least 2 judged searches and at least one table hit; distinct = hash of the decoded trace",
-		Real: []string{"pkg/search (AlphaBeta, Quiescence, table, WriteLimited)", "pkg/board"}, Stub: []string{"recording wrapper around the real table; harness-supplied position-determined evaluator and exploration"},
+		Rule: "one run in five is an engine-level session (two real engines, same wiring and Zobrist seed, one with a 1..2 MB table and one without, taken through the same 2..4 games with noise switched on and off between them, Reset, moves, take-backs and analyses run to completion; with noise off every iteration must report the same score on both). The other runs: one run = a game history, one real table of tape-drawn size (2..65536 slots, optionally behind the min-depth-1 write filter) wrapped in a recording table, then 1..4 rounds of iterative deepening 1..d with the game advancing 1..2 plies (or going back one: always after a materially drawn root, which is searched unjudged) between rounds and an occasional halted search in between; judged per search: root score vs the same search without table, PV first move's no-table value, every (sampled) exact store vs the no-table value of the forked position at that depth, every hit vs the last store let through. Non-trivial = at least 2 judged searches and at least one table hit; distinct = hash of the decoded trace",
+		Real: []string{"pkg/search (AlphaBeta, Quiescence, table, WriteLimited)", "pkg/board", "pkg/engine (Reset, Move, TakeBack, SetNoise, Analyze) and searchctl.Iterative in the engine-level sessions (free-running goroutines, one search at a time)"}, Stub: []string{"recording wrapper around the real table; harness-supplied position-determined evaluator and exploration"},
 		Assumptions: []string{"differential baseline: the repo's own AlphaBeta with NoTranspositionTable", "sessions are excluded from the first search in which a repetition/fifty-move draw could arise inside the tree (sufficient condition: all game positions distinct, depth <= 5, clock+depth < 100)", "exact stores are sampled (every 1st..3rd) in the quick tier"},
-		Run:         sb.SearchSessionC11})
+		Run: func(t *tape.Tape) *core.RunResult {
+			if t.Chance(1, 5) {
+				return sb.EngineSessionC11(t)
+			}
+			return sb.SearchSessionC11(t)
+		}})
 	register(&Spec{Prop: "C12", QuickRuns: 1200, Level: "fault_enumeration", NeedsBubble: true, RunawayKind: "search-does-not-end",
 		Rule: "every other run is an analysis-level session (Iterative.Launch inside a synctest bubble, as in C15, but always with halters: Handle.Halt by one or two simulated clients, the launch context cancelled, the hard-limit timer, at tape-chosen instants while the search is parked mid-tree; judged: whatever is reported after the halt was requested is a completed iteration's true result, the board is as handed over once Halt has returned and once the analysis has ended, and it ends). The other runs: one run = one search (AlphaBeta full/selective/quiescence, Minimax, or AlphaBeta with SARGON's check-extension leaf) on a live board with history, with a fresh or pre-filled real table of tape-drawn size; its cancellation polls are counted (P) and the search is rerun with the context cancelled at exactly the n-th poll for every n<=P (P<=250), else the first 80, last 80 and 90 tape-drawn polls. evaluations = halted searches; each is judged on: ErrHalted and no result, every board getter unchanged, every store after the halt verified against the no-table value of the forked position, and two follow-up searches on the same table compared with a twin table on which the halted search never ran. Non-trivial = at least 10 polls enumerated; distinct = hash of the decoded trace",
 		Real: []string{"pkg/search (AlphaBeta, Quiescence, Minimax, table)", "pkg/search/searchctl (Iterative, handle, EnforceTimeControl) in the analysis-level sessions", "cmd/sargon/sargon (OnePlyIfChecked)", "pkg/board", "seekerror/stdlib contextx.IsCancelled"}, Stub: []string{"context.Context replaced by a counting context whose Done() closes at the n-th call (the cancellation seam); harness-supplied evaluator/exploration; recording wrapper around the real table"},
